@@ -76,12 +76,14 @@ CHECKS = {
         note=NOTE_COMMON + "Partial: the (n+c)*2^-52 forward error bound is checked on explored inputs, not proved; StdModel rounding analysis not formalised.",
     ),
     "C16": dict(
-        technique="Lean 4 separation/frame proof over a heap model of Go slices (induction over mutation histories, any capacity-growth policy) + differential correspondence on clone-then-mutate histories",
+        technique="Lean 4 separation/frame proof over a heap model of Go slices (induction over mutation histories, any capacity-growth policy) + regenerated tie (SSA alias summary of every exported Clone, required empty by a decide theorem) + differential correspondence on clone-then-mutate histories",
         text="C16_clone: the deep copy is equal as a value (scalars, nil-ness, every cell), well formed and lives only in arrays that did not exist before. "
              "C16_frame / C16_geometry_histories: for two objects sharing no array, every finite history of writes, in-place permutations, appends with Go's "
              "in-place-if-capacity semantics, re-allocations and new rows on either object is observed exactly as on two independent values "
              "(invariant: separation; proved for every growth policy). Go is driven through the same histories with real Clone()/Push/Reverse/"
-             "TransformInPlace/SetCoords/Set and compared bit for bit.",
+             "TransformInPlace/SetCoords/Set and compared bit for bit. Tie (regenerated each run from /repo's source by /verif/effects): "
+             "C16_clone_results_fresh - the result of each of the nine exported Clone methods is a fresh object from which neither the receiver nor any package "
+             "variable is reachable (may-alias summary over SSA, interface calls resolved to every implementation); C16_clone_roots_present.",
         note=NOTE_COMMON + "Heap model: arrays of cells with (array, offset, len, cap) slices; Go's runtime growth policy is a universally quantified parameter.",
     ),
     "C03": dict(
